@@ -43,6 +43,13 @@ func (sp *StakePool) save(sscKey, providerID string, balances cstate.StateContex
 	return
 }
 
+// Save implements stakepool.AbstractStakePool with the authorizer stake pool's own encoding; without
+// it the promoted stakepool.StakePool.Save would store the embedded pool in a different encoding
+// than the one getStakePool decodes.
+func (sp *StakePool) Save(_ spenum.Provider, providerID string, balances cstate.StateContextI) error {
+	return sp.save("", providerID, balances)
+}
+
 // empty a delegate pool if possible, call update before the empty
 //
 //nolint:unused
